@@ -96,6 +96,9 @@ def apply_layout(c, s, ly, shape):
         return L.SDsetexternalfile(s, b"ext_sds.dat", ly[1] if len(ly) > 1 else 0)
     if kind == "blk":
         return L.SDsetblocksize(s, ly[1])
+    if kind == "nbit":
+        # the low bit_len bits of each value are kept (start_bit = bit_len - 1), no sign extension, no fill
+        return L.SDsetnbitdataset(s, ly[1] - 1, ly[1], 0, 0)
     return 0
 
 
@@ -188,3 +191,32 @@ def sd_reopen(c, a):
         return {"ret": FAIL}
     rank, dims = _dims(c)
     return {"ret": 0, "dims": dims}
+
+
+def _chunk_elems(c):
+    ly = c.v["layout"]
+    cs = ly[1:1 + len(c.v["shape"])] if ly[0] == "chunk" else ly[2:2 + len(c.v["shape"])]
+    return nprod(cs)
+
+
+@op("SDArray", "WriteChunk")
+def sd_writechunk(c, a):
+    raw = to_bytes(c, a["data"])
+    b = CBuf(len(raw), raw)
+    r = c.L.SDwritechunk(c.v["sds"], i32arr(a["origin"]), b.ptr)
+    b.free()
+    return {"ret": 0 if r != FAIL else FAIL}
+
+
+@op("SDArray", "ReadChunk")
+def sd_readchunk(c, a):
+    n = _chunk_elems(c)
+    sz = struct.calcsize("=" + c.v["ntinfo"][1])
+    b = CBuf(n * sz)
+    r = c.L.SDreadchunk(c.v["sds"], i32arr(a["origin"]), b.ptr)
+    o = {"ret": 0 if r != FAIL else FAIL}
+    if r != FAIL:
+        exp = (c.exp or {}).get("data") if c.exp else None
+        o["data"] = from_bytes(c, b.raw(n * sz), n, exp)
+    b.free()
+    return o
